@@ -158,6 +158,11 @@ def generate(rnd, tier):
             continue
         metric = gen_metric(rnd, is_group)
         sampler = gen_sampler(rnd, is_group, big)
+        if is_group and big and rnd.random() < 0.5:
+            # the method-resolution interplay: "dynamic" is resolved differently by Scores and GroupScores (by_group forces
+            # replacement); a built-in configuration observed through a recording metric
+            sampler = {"sampling_method": "dynamic", "stratified_sampling": rnd.choice(["by_group", "by_group", "by_label", None])}
+            metric = {"callable": rnd.choice(GROUP_CALLABLES), "kwargs": {"threshold": {"shape": [], "data": [0.0]}}}
         nb = rnd.randint(1, 12 if big else 60)
         if metric.get("name") == "eer":
             nb = min(nb, 12)
